@@ -151,8 +151,15 @@ def r1(R1, cfg, F):
         ok = lk == 'header+len' and fs.access_path(lc.args[0]) == ['call@bb%d' % ln[0].bb]
         why = 'layout is not get_inner_layout(bytes.len())'
         if ok:
-            ok = inn['capacity'].get('text', '').startswith('0') and fs.access_path(inn['len']) == ['call@bb%d' % ln[0].bb] \
-                and inn['count'] is not None and [x.args[0].get('text') for x in fs.call_roots(inn['count'])] == ['1_usize']
+            def ctext(b_, op_):
+                # the constant an operand stands for, directly or through the parameter of a constructor written in place
+                if op_.get('k') == 'const':
+                    return op_.get('text', '')
+                dp_ = common.deep_path(b_, op_) or []
+                return dp_[0][6:] if len(dp_) == 1 and dp_[0].startswith('const:') else ''
+            cnt = fs.call_roots(inn['count'])
+            ok = ctext(fs, inn['capacity']).startswith('0') and common.strip_refs(common.deep_path(fs, inn['len'])) == ['call@bb%d' % ln[0].bb] \
+                and inn['count'] is not None and len(cnt) == 1 and cnt[0].args and ctext(fs, cnt[0].args[0]).startswith('1')
             why = 'header must record capacity 0, len = bytes.len(), count 1'
         if ok:
             data = fs.call_roots(inn['ptr'], passthrough=PTRPT)
